@@ -467,6 +467,7 @@ def run(ctx):
     # ---------------- R9 std API preconditions
     ctx.rule("C01.R9", "calls to std APIs that panic on a documented precondition (chunks(0), step_by(0), remove/insert/split_at out of range) are dominated by a test of that very argument that exits", floor=1)
     n9 = 0
+    deferred9 = []
     for n in local:
         fn = M.Fn(cg.fns[n], n)
         for b in fn.call_blocks():
@@ -477,8 +478,10 @@ def run(ctx):
                 t = fn.term(b)
                 op = t["args"][ai]
                 if "int" in op:
-                    ok = int(op["int"]) != 0 if need == "nonzero" else None
-                    ctx.inst("C01.R9", "%s->%s" % (n.replace(CORE, ""), H.last(c)), ok, "constant argument %s" % op["int"], fn.loc(b))
+                    if need == "nonzero":
+                        ctx.inst("C01.R9", "%s->%s" % (n.replace(CORE, ""), H.last(c)), int(op["int"]) != 0, "constant argument %s" % op["int"], fn.loc(b))
+                    else:
+                        deferred9.append((n, c, op["int"], fn.loc(b)))   # a constant position: decided with the constant indexes (R16)
                     continue
                 pl = fn.op_place(op)
                 guarded = False
@@ -632,6 +635,13 @@ def run(ctx):
     panics.explicit_panics(ctx, "C01.R14", [core, cli, wasm], G)
     panics.pratt_nonempty(ctx, "C01.R15", [core, cli, wasm], G)
     panics.constant_indexes(ctx, "C01.R16", [core, cli, wasm], skip_fns=(BCALL,))
+    for n_, c_, k_, loc_ in deferred9:
+        par_ = cg.fns[n_].get("parent") or n_
+        vs_ = panics.VERDICTS.get((par_, H.last(c_)), [])
+        v_ = None if not vs_ or None in vs_ else all(vs_)
+        if False in vs_:
+            v_ = False
+        ctx.inst("C01.R9", "%s->%s" % (n_.replace(CORE, ""), H.last(c_)), v_, "constant position %s: %s" % (k_, "the length of the vector is bounded by a test before the call (see C01.R16)" if v_ else ("no bounding test found" if v_ is None else "the bounding test comes too late")), loc_)
     # ---------------- R17 deeply nested JSON is refused, not recursed into
     ctx.rule("C01.R17", "JSON documents are parsed with serde_json's recursion limit in force (128 levels: a deeper document is a reported error): the `unbounded_depth` feature is off and nothing calls disable_recursion_limit - the conversions that walk the parsed value recurse once per level", floor=1)
     from rules import c06 as c06_
